@@ -23,6 +23,11 @@ type nontrivialFn func(v *mon.View) bool
 
 // scenarioFamily builds the Run function for a per-reconcile property.
 func scenarioFamily(prop string, cfgOf func(i int) world.Cfg, check recCheck, nontrivial nontrivialFn, directed []func(*fam)) func(ctx *Ctx) *Result {
+	return scenarioFamilyOpt(prop, cfgOf, check, nontrivial, directed, false)
+}
+
+// scenarioFamilyOpt: with panicIsViolation a reconcile panic is a violation of prop (C15), else inconclusive.
+func scenarioFamilyOpt(prop string, cfgOf func(i int) world.Cfg, check recCheck, nontrivial nontrivialFn, directed []func(*fam), panicIsViolation bool) func(ctx *Ctx) *Result {
 	return func(ctx *Ctx) *Result {
 		res := newResult()
 		srv := simapi.New()
@@ -32,7 +37,7 @@ func scenarioFamily(prop string, cfgOf func(i int) world.Cfg, check recCheck, no
 			if !ctx.mine(i) {
 				continue
 			}
-			f := &fam{ctx: ctx, res: res, w: w, prop: prop, check: check, nontrivial: nontrivial, st: st, idx: i}
+			f := &fam{ctx: ctx, res: res, w: w, prop: prop, check: check, nontrivial: nontrivial, st: st, idx: i, panicIsViolation: panicIsViolation}
 			if i-ctx.Lo < len(directed) {
 				w.Reset()
 				f.r = world.NewRunner(w, ctx.caseSeed(i), world.DefaultCfg())
@@ -58,16 +63,17 @@ func scenarioFamily(prop string, cfgOf func(i int) world.Cfg, check recCheck, no
 }
 
 type fam struct {
-	ctx        *Ctx
-	res        *Result
-	w          *world.World
-	r          *world.Runner
-	prop       string
-	check      recCheck
-	nontrivial nontrivialFn
-	st         mon.Stats
-	idx        int
-	reported   map[string]bool
+	ctx              *Ctx
+	res              *Result
+	w                *world.World
+	r                *world.Runner
+	prop             string
+	check            recCheck
+	nontrivial       nontrivialFn
+	st               mon.Stats
+	idx              int
+	reported         map[string]bool
+	panicIsViolation bool
 }
 
 func (f *fam) safely(fn func()) {
@@ -82,6 +88,11 @@ func (f *fam) safely(fn func()) {
 func (f *fam) onRecord(rec *world.Record) {
 	f.res.Evaluations++
 	v := mon.NewView(rec)
+	if rec.Panic != nil && f.panicIsViolation {
+		f.st.Inc("reconcile_panics")
+		f.report(mon.V(f.prop, "reconcile-panicked", "a reconcile of a valid set panicked under a hostile schedule: %v\n%s", rec.Panic, rec.Stack))
+		return
+	}
 	if rec.Panic != nil {
 		// a crash of repository code in a check whose property is not about crashing: inconclusive, never silently "no bad action"
 		f.res.Inconclusive = append(f.res.Inconclusive, fmt.Sprintf("case %d: reconcile panicked: %v", f.idx, rec.Panic))
